@@ -81,7 +81,8 @@ func PushCheck(sc sim.Scenario, h *sim.History) []Problem {
 		rets      []sim.Event
 		ctxEndSeq int // first event that ends its context (pushcancel / stop / peerclose / epilogue), -1 none
 		stopSeq   int // first event that ends the connection the push was made on, -1 none
-		bad       bool
+		bad        bool
+		sendFailed bool // the channel's Send failed for its request (injected)
 	}
 	calls := map[string]*call{}
 	keyOf := func(inside bool, k int) string { return fmt.Sprintf("%v/%d", inside, k) }
@@ -113,7 +114,7 @@ func PushCheck(sc sim.Scenario, h *sim.History) []Problem {
 			c := get(false, e.K)
 			c.kind, c.pushSeq, c.pushT = e.Method, e.Seq, e.T
 			if e.Step < len(sc.Steps) {
-				c.deadline = sc.Steps[e.Step].D
+				c.deadline = max(sc.Steps[e.Step].D, 0)
 				c.bad = sc.Steps[e.Step].Out == "badparams"
 			}
 		case "enter":
@@ -135,6 +136,11 @@ func PushCheck(sc sim.Scenario, h *sim.History) []Problem {
 				if !allow {
 					add("C09/push-transmitted-without-allowpush", "the server sent %s although AllowPush is off", e.Data)
 				}
+			}
+		case "sendfault":
+			// the channel refused this record: if it was a push, the push fails
+			if r, ok := parsePushRequest(e); ok {
+				get(r.inside, r.key).sendFailed = true
 			}
 		case "pushret":
 			c := get(false, e.K)
@@ -281,6 +287,12 @@ func PushCheck(sc sim.Scenario, h *sim.History) []Problem {
 			}
 			if flag == "" || flag == "rpcerror" {
 				add("C09/refused-push-succeeded", "%s has parameters that cannot be marshalled, yet it returned %q %s", name, flag, ret.Data)
+			}
+			continue
+		}
+		if c.sendFailed {
+			if flag == "" || flag == "rpcerror" {
+				add("C09/push-ok-although-send-failed", "%s: the channel refused its request, yet it returned %q %s", name, flag, ret.Data)
 			}
 			continue
 		}
